@@ -281,6 +281,7 @@ def e2eFault (kind : String) : Option Listener.Fault :=
   | "local-junk" => some .localGarbage
   | "local-stall" => some .localStall
   | "local-udp-junk" => some .localUdpGarbage
+  | "local-udp-short" => some .localUdpGarbage
   | "local-udp-unresolvable" => some .udpTargetUnresolvable
   | _ => none
 
